@@ -1,0 +1,6 @@
+//go:build !verif
+// +build !verif
+
+package log
+
+func verifPoint(name string, args ...interface{}) {}
